@@ -102,7 +102,7 @@ class NumberExpr(number_expr.NumberExpr, internal.RWValue[decimal.Decimal]):
         self._number_add_expr = add_expr
 
     def _iaddsub(self: 'NumberExpr', other: 'NumberExpr', op: Literal['+', '-']) -> 'NumberExpr':
-        mul_expr = _as_mul_expr(other)
+        mul_expr = _as_mul_expr(copy.deepcopy(other))
         add_op = AddOp.from_raw_text(op)
         self.token_store.insert_after(self.last_token, [
             Whitespace.from_default(),
@@ -179,8 +179,8 @@ class NumberExpr(number_expr.NumberExpr, internal.RWValue[decimal.Decimal]):
         return other - self
 
     def _imuldiv(self: 'NumberExpr', other: 'NumberExpr', op: Literal['*', '/']) -> 'NumberExpr':
+        atom_expr = _as_atom_expr(copy.deepcopy(other))
         self_mul_expr = _as_mul_expr(self)
-        atom_expr = _as_atom_expr(other)
         mul_op = MulOp.from_raw_text(op)
         self.token_store.insert_after(self_mul_expr.last_token, [
             Whitespace.from_default(),
